@@ -19,7 +19,7 @@ RULE = ("part classes: every kit class deriving its structure from its signature
         "Non-trivial = record with a unique generic match whose expected verdict was compared; distinct = distinct (class, record).")
 ASSUMPTIONS = ["records over ACGT with exactly one forward and one reverse cutter site (unique generic match)"]
 FLOORS = {"c05_compared": 3000, "c05_expected_accept": 500, "c05_expected_reject": 500, "c05_characterize_calls": 300,
-          "c05_characterize_returned": 100, "c05_characterize_raised": 50}
+          "c05_characterize_returned": 100, "c05_characterize_raised": 50, "c05_late_subclass_characterizations": 50}
 MUST_REACH = ["AbstractPart.structure", "AbstractPart.characterize"]
 BUDGET_S = {"quick": 900, "thorough": 7200}
 MODES = ["member", "sibling", "generic", "nearmiss"]
@@ -41,15 +41,15 @@ def kit_part_classes():
 
 def cases(tier, seed):
     out = []
-    per = 60 if tier == "quick" else 2500
+    per = 60 if tier == "quick" else 8000
     for c in kit_part_classes():
         out.append({"kind": "kit", "cls": gen.class_name(c), "seed": seed, "count": per})
-    nuser = 8 if tier == "quick" else 200
+    nuser = 8 if tier == "quick" else 400
     for e in gen.enzyme_names():
         out.append({"kind": "user", "enzyme": e, "seed": seed, "nsig": nuser, "count": 12 if tier == "quick" else 40})
     for b in ["ytk.YTKPart", "cidar.CIDARPart", "ecoflex.EcoFlexPart", "moclo.MoCloPart"]:
-        out.append({"kind": "characterize-kit", "base": b, "seed": seed, "count": 60 if tier == "quick" else 2000})
-    for j in range(0, 40 if tier == "quick" else 1500, 10):
+        out.append({"kind": "characterize-kit", "base": b, "seed": seed, "count": 60 if tier == "quick" else 8000})
+    for j in range(0, 40 if tier == "quick" else 6000, 10):
         out.append({"kind": "characterize-user", "from": j, "count": 10, "seed": seed})
     return out
 
@@ -290,3 +290,14 @@ def execute(mat, ctx):
                 except (RuntimeError, NotImplementedError):
                     pass
                 ctx.nontrivial(["charuser", j, s])
+            # a new type declared *after* the family base has been used: it is a candidate from then on
+            late_sig = (gen.rand_dna(rng, k), gen.rand_dna(rng, k))
+            late = type(str("ULate%d" % j), (base, role) if not concrete_base else (base,), {"signature": late_sig})
+            for t in range(3):
+                ctx.count("evaluations")
+                ctx.count("c05_late_subclass_characterizations")
+                s = gen.instance(rng, late.structure(), run_max=15) + gen.rand_dna(rng, rng.randint(2, 15))
+                try:
+                    base.characterize(_record(rot_left(s, rng.randrange(10))))
+                except (RuntimeError, NotImplementedError):
+                    pass
